@@ -80,7 +80,7 @@ manifest = {
   "guard": "verif",
   "enable": "go build -tags verif (hook files carry //go:build verif); every check command rebuilds its driver from /repo's working tree with that tag",
   "baseline_off_cmd": "cd /repo && GOFLAGS=-mod=mod GOPROXY=off GOSUMDB=off GOTOOLCHAIN=local go test -json -vet=off -count=1 -timeout 25m ./...",
-  "source_commits": ["289c81c", "3fadb80", "8446585", "158c908", "5242047"],
+  "source_commits": ["289c81c", "3fadb80", "8446585", "158c908", "5242047", "a9515bc"],
   "add_only": True,
  },
  "engines": [
